@@ -12,19 +12,19 @@ def ops (field : String) : List (String × String × Bool) :=
 /-- the notification barrier: waited and raised only in `waitForBarrier` (lock released), lowered
 only in the per-batch closure of `dispatchLocked` (two sites: inline and goroutine path) -/
 theorem barrier_writers :
-    ops "s.nbar" = [("waitForBarrier", "Wait", false), ("waitForBarrier", "Add", false),
-      ("dispatchLocked", "Done", false), ("dispatchLocked", "Done", false)] := by decide
+    ops "s.nbar" = [("dispatchLocked", "Done", false), ("dispatchLocked", "Done", false),
+      ("waitForBarrier", "Add", false), ("waitForBarrier", "Wait", false)] := by decide
 
 /-- the inbound queue: one producer (`read`), one consumer (`nextRequest`), rebuilt by `stopLocked`;
 every access under the mutex -/
 theorem queue_writers :
-    ops "s.inq" = [("nextRequest", "Pop", true), ("stopLocked", "Clear", true),
-      ("stopLocked", "Add", true), ("read", "Add", true)] := by decide
+    ops "s.inq" = [("nextRequest", "Pop", true), ("read", "Add", true),
+      ("stopLocked", "Add", true), ("stopLocked", "Clear", true)] := by decide
 
 /-- goroutines of the server: reader + dispatcher (Start), one per batch (serve), one per extra
 task of a batch (dispatchLocked), one watcher per callback (pushReq) -/
 theorem server_goroutines :
     (goStmts.filter (·.file == "server.go")).map (fun s => (s.fn, s.what)) =
-      [("Start", "func"), ("Start", "func"), ("serve", "func"), ("dispatchLocked", "func"), ("pushReq", "s.waitCallback")] := by decide
+      [("Start", "func"), ("Start", "func"), ("dispatchLocked", "func"), ("pushReq", "s.waitCallback"), ("serve", "func")] := by decide
 
 end Jrpc.Tie.C03
